@@ -4,6 +4,7 @@
 pub use ndarray;
 pub use ndarray_interp;
 
+pub mod c19;
 pub mod cases;
 pub mod dynapi;
 pub mod events;
